@@ -42,9 +42,9 @@ RULE = ("generated source trees with cross links among recipes / directories / r
 
 
 def suites(tier: str, seed: int) -> List[Suite]:
-    site, hist = SC.site_suite(), SC.history_suite()
+    site, hist, big = SC.site_suite(), SC.history_suite(), SC.big_site_suite()
     if tier == "replay":
-        return [site, hist]
+        return [site, hist, big]
     if tier == "quick":
         plan = [("valid", "small", 10), ("valid", "medium", 30), ("valid", "deep", 10), ("valid", "small:ws", 4),
                 ("valid", "medium:wsrm", 3)]
@@ -58,7 +58,10 @@ def suites(tier: str, seed: int) -> List[Suite]:
     # build, ADD recipes and links to them, rebuild into the SAME output directory: link checker + reachability on the
     # result, which must also equal a from-scratch build of the new tree
     hist.cases += SC.gen_add_sources_history_cases(seed, 6 if tier == "quick" else 100)
-    return [site, hist]
+    # a recipe written for more than 256 servings (max_servings 257..301) that other documents link to: ~600 pages,
+    # one tree per quick run (about 12 s to generate, 30 s in Coq on a page sample)
+    big.cases = SC.gen_big_m_cases(seed, 1 if tier == "quick" else 4, "C14")
+    return [site, hist, big]
 
 
 def replay(inp: Any) -> Case:
